@@ -272,6 +272,9 @@ func slice(i *interpreter, x, lo, hi, max value) value {
 		Len = len(x)
 		Cap = Len
 	case symstr:
+		if seqHasDec(x.b) {
+			return i.sliceDec(x, lo, hi, max)
+		}
 		Len = len(x.b)
 		Cap = Len
 	case []value:
@@ -316,6 +319,33 @@ func slice(i *interpreter, x, lo, hi, max value) value {
 		return []value(a)[l:h:m]
 	}
 	panic(fmt.Sprintf("slice: unexpected X type: %T", x))
+}
+
+// sliceDec slices a string with decimal segments at concrete offsets inside its
+// leading concrete part (s[l:], s[:h], s[l:h] with h before the first segment).
+func (i *interpreter) sliceDec(x symstr, lo, hi, max value) value {
+	lead := leadingConcrete(x.b)
+	l := int64(0)
+	if lo != nil {
+		if _, ok := lo.(sym); ok {
+			panic(engineError("symbolic slice bound on a string with a decimal segment"))
+		}
+		l = asInt64(lo)
+	}
+	if l < 0 || l > int64(lead) {
+		panic(engineError("slice bound inside or after a decimal segment"))
+	}
+	if hi == nil {
+		return mkstr(x.b[l:])
+	}
+	if _, ok := hi.(sym); ok {
+		panic(engineError("symbolic slice bound on a string with a decimal segment"))
+	}
+	h := asInt64(hi)
+	if h < l || h > int64(lead) {
+		panic(engineError("slice bound inside or after a decimal segment"))
+	}
+	return mkstr(x.b[l:h])
 }
 
 // index checks idx against n (forking over feasible positions when symbolic).
@@ -1041,6 +1071,9 @@ func callBuiltin(caller *frame, callpos token.Pos, fn *ssa.Builtin, args []value
 		case string:
 			return len(x)
 		case symstr:
+			if seqHasDec(x.b) {
+				return caller.i.symLen(x)
+			}
 			return len(x.b)
 		case array:
 			return len(x)
